@@ -11,8 +11,8 @@
 //!
 //! Oracle: every call `get_decoded_with_param(param, bytes)` RETURNS `Ok` or `Err`:
 //!   * no panic (the profile has overflow checks and debug assertions on);
-//!   * no hang: per-call wall limit 2 s (watchdog thread; a timeout is confirmed by re-running the
-//!     single case in a fresh process before it is reported);
+//!   * no hang: per-call limit of 2 s of process CPU time (watchdog thread; wall-clock backstop 120 s;
+//!     a timeout is confirmed by re-running the single case in a fresh process before it is reported);
 //!   * no allocation out of proportion: bytes requested from the allocator during the call (sum of
 //!     alloc / alloc_zeroed sizes and realloc new sizes) <= 256 * len + (size the decoding parameter
 //!     legitimately implies: 4 x the record length + 1 KiB for fixed-length records, 0 for
@@ -57,10 +57,29 @@ static CALL_START: AtomicU64 = AtomicU64::new(0);
 static WORST_PERMILLE: AtomicU64 = AtomicU64::new(0);
 static PEAK_USED: AtomicUsize = AtomicUsize::new(0);
 
+#[repr(C)]
+struct Timespec {
+    sec: i64,
+    nsec: i64,
+}
 extern "C" {
     fn write(fd: i32, buf: *const u8, count: usize) -> isize;
     fn _exit(status: i32) -> !;
+    fn clock_gettime(clock: i32, ts: *mut Timespec) -> i32;
 }
+/// CPU time consumed by this process, in ms: the per-call limit is counted in CPU time so that a busy
+/// machine cannot turn a descheduled call into a "hang" (a decoder that loops burns CPU time).
+fn cpu_ms() -> u64 {
+    const CLOCK_PROCESS_CPUTIME_ID: i32 = 2;
+    let mut ts = Timespec { sec: 0, nsec: 0 };
+    if unsafe { clock_gettime(CLOCK_PROCESS_CPUTIME_ID, &mut ts) } != 0 {
+        return now_ms();
+    }
+    ts.sec as u64 * 1000 + ts.nsec as u64 / 1_000_000 + 1
+}
+/// wall-clock backstop, as a multiple of the CPU limit
+const WALL_FACTOR: u64 = 60;
+static CALL_START_WALL: AtomicU64 = AtomicU64::new(0);
 
 /// Format without allocating and write with write(2).
 fn raw_line(fd: i32, parts: &[&[u8]], nums: &[u64]) {
@@ -149,7 +168,8 @@ fn now_ms() -> u64 {
 fn window_begin(budget: usize) {
     USED.store(0, Ordering::Relaxed);
     BUDGET.store(budget, Ordering::Relaxed);
-    CALL_START.store(now_ms(), Ordering::SeqCst);
+    CALL_START_WALL.store(now_ms(), Ordering::SeqCst);
+    CALL_START.store(cpu_ms(), Ordering::SeqCst);
     ARMED.store(true, Ordering::SeqCst);
 }
 
@@ -195,7 +215,9 @@ fn worker_main(args: &[String]) -> ! {
     std::thread::spawn(|| loop {
         std::thread::sleep(std::time::Duration::from_millis(20));
         let s = CALL_START.load(Ordering::SeqCst);
-        if s != 0 && now_ms().saturating_sub(s) > CALL_LIMIT_MS && CALL_START.load(Ordering::SeqCst) == s {
+        let w = CALL_START_WALL.load(Ordering::SeqCst);
+        let over = cpu_ms().saturating_sub(s) > CALL_LIMIT_MS || now_ms().saturating_sub(w) > WALL_FACTOR * CALL_LIMIT_MS;
+        if s != 0 && over && CALL_START.load(Ordering::SeqCst) == s {
             ARMED.store(false, Ordering::SeqCst);
             raw_line(2, &[b"CASE ", b" ", b" TIMEOUT ", b""], &[CUR_ENTRY.load(Ordering::SeqCst), CUR_CASE.load(Ordering::SeqCst), CALL_LIMIT_MS]);
             unsafe { _exit(EXIT_TIMEOUT) }
